@@ -435,7 +435,7 @@ func predConfig(c configCase, o *evid.Obs) error {
 		return nil
 	}
 	defer ch.stop()
-	ref, err := sweepApp("reader", false) // only to ask whether a path has a route
+	ref, err := sweepApp("reader", 0) // only to ask whether a path has a route
 	if err != nil {
 		return fmt.Errorf("assembly: %w", err)
 	}
